@@ -240,6 +240,13 @@ class Run:
         self.findings = load_findings(prop)
         self.known_hits = {}
 
+    def borrow_findings(self, other_prop):
+        """This check also judges symptoms that another property's check owns (e.g. C03 judges which
+        rows a positional take returns): the other property's listed findings apply to them unchanged
+        (same symptom class, same shape).  Their witnesses are replayed by their own check, not here."""
+        for f in load_findings(other_prop):
+            self.findings.append(Finding(self.prop, f.id, f.symptom, f.shape, None, "(listed under %s) %s" % (other_prop, f.text)))
+
     def add_violation(self, symptom, shape, witness, detail=""):
         self.violations.append({"property": self.prop, "symptom": symptom, "shape": shape,
                                 "witness": witness, "detail": detail})
